@@ -62,6 +62,9 @@ size_t strlen (const char *s)
 #ifndef XV_SPAN_SCAN
 #define XV_SPAN_SCAN 64
 #endif
+#ifndef XV_SPAN_EXACT
+#define XV_SPAN_EXACT 24
+#endif
 size_t xv_ghost_idx[XV_NGHOST];
 
 static _Bool xv_in_set (char c, const char *set)
@@ -81,8 +84,16 @@ static size_t xv_span (const char *s, const char *set, _Bool want_member)
   size_t len;
   if (xv_str_lookup (s, &len))
     {
+      /* exact for the first XV_SPAN_EXACT characters (the salt prefixes the
+         methods care about are short) ... */
+      for (size_t i = 0; i < XV_SPAN_EXACT; i++)   /* XV_UNWIND SPANEXACT */
+        {
+          if (i >= len) return len;
+          if (xv_in_set (s[i], set) != want_member) return i;
+        }
+      /* ... and by contract beyond */
       size_t r = nondet_size ();
-      __CPROVER_assume (r <= len);
+      __CPROVER_assume (r >= XV_SPAN_EXACT && r <= len);
       __CPROVER_assume (r == len || xv_in_set (s[r], set) != want_member);
       size_t base = 0;
       for (int i = 0; i < XV_MAXSTR; i++)
